@@ -424,10 +424,11 @@ type c16Relay struct {
 	conns map[string]*websocket.Conn // by URL path
 	hits  []string
 	srv   *httptest.Server
+	stop  chan struct{} // closed at the end of the run: stalled connections are let go
 }
 
 func c16NewRelay() *c16Relay {
-	rl := &c16Relay{conns: map[string]*websocket.Conn{}}
+	rl := &c16Relay{conns: map[string]*websocket.Conn{}, stop: make(chan struct{})}
 	up := websocket.Upgrader{CheckOrigin: func(*http.Request) bool { return true }}
 	rl.srv = httptest.NewServer(http.HandlerFunc(func(w http.ResponseWriter, req *http.Request) {
 		rl.mu.Lock()
@@ -440,6 +441,13 @@ func c16NewRelay() *c16Relay {
 		rl.mu.Lock()
 		rl.conns[req.URL.Path] = c
 		rl.mu.Unlock()
+		if strings.Contains(req.URL.Path, "stalled-relay") {
+			// a relay that accepted the connection and then stopped: it reads nothing (so it never sees or answers a
+			// Close frame) and does not close
+			<-rl.stop
+			c.Close()
+			return
+		}
 		for {
 			if _, _, err := c.ReadMessage(); err != nil {
 				return
@@ -1057,6 +1065,42 @@ func (e *c16Env) streamingWhileClientLeaves(round int) {
 	}
 }
 
+// stalledRelay: the relay accepted the proxy's connection and then stopped reading and never closes; the client uses
+// the session for a moment and leaves. The handler must end (closing the relay connection cannot wait for the
+// relay's cooperation) and the slot must come back.
+func (e *c16Env) stalledRelay() {
+	r := e.r
+	tokens = newTokens(2)
+	c, err := c16NewClient()
+	if err != nil {
+		r.Note("stalled relay: client: %v", err)
+		return
+	}
+	path := "/stalled-relay"
+	p := &c16Plan{poll: "offer", offer: c.offer, client: c, answer: "accept", applyAfter: 0, relayURL: e.relay.wsURL(path)}
+	_, o := e.session(e.sf, p, 15*time.Second)
+	line := "c16 events 1 2 d  [the relay accepts the connection, then reads nothing and never closes; the client sends 10 KiB and closes its peer connection]"
+	r.Case("exit/d/relay-stalled-client-leaves", line, true)
+	if o != "ok" {
+		r.OracleFail("run-session-"+o, line, o, "runSession did not return")
+		return
+	}
+	select {
+	case <-c.opened:
+		for i := 0; i < 10; i++ {
+			c.dc.Send(make([]byte, 1024))
+		}
+	case <-time.After(10 * time.Second):
+		r.Note("stalled relay: the client's data channel did not open")
+	}
+	time.Sleep(500 * time.Millisecond)
+	c.pc.Close()
+	if after := c16WaitCount(0, 20*time.Second, 200*time.Millisecond); after != 0 {
+		r.OracleFail("slot-leaked/relay-stalled", line, fmt.Sprintf("slots in use 20 s after the client left: %d", after),
+			"when the client goes away the data channel handler must end and release its slot, whether or not the relay still responds")
+	}
+}
+
 func (e *c16Env) stalledDownloader() {
 	r := e.r
 	tokens = newTokens(2)
@@ -1455,6 +1499,76 @@ func TestC16ChildStart(t *testing.T) {
 	fmt.Printf("C16CHILD result polls=%d loads=%v maxConcurrentPolls=%d\n", len(loads), loads, maxConcurrent)
 }
 
+// TestC16ChildSilentBroker: in a process of its own, the order of events of a running proxy - broker channel set up,
+// a NAT type measurement (real checkNATType against a probe that cannot be reached), then a session whose poll is
+// accepted by the broker and never answered. The poll must end at the broker transport's response-header timeout
+// (30 s) and the session must give its slot back.
+func TestC16ChildSilentBroker(t *testing.T) {
+	if os.Getenv("VERIF_C16_SILENT") == "" {
+		t.Skip("child of TestVerifC16 only")
+	}
+	log.SetOutput(io.Discard)
+	hole, err := net.Listen("tcp", "127.0.0.1:0")
+	if err != nil {
+		fmt.Printf("C16SILENT skipped %v\n", err)
+		return
+	}
+	defer hole.Close()
+	go func() {
+		for {
+			c, err := hole.Accept()
+			if err != nil {
+				return
+			}
+			go func() { io.Copy(io.Discard, c); c.Close() }()
+		}
+	}()
+	broker, err = newSignalingServer("http://"+hole.Addr().String()+"/", true)
+	if err != nil {
+		fmt.Printf("C16SILENT skipped %v\n", err)
+		return
+	}
+	config = webrtc.Configuration{}
+	sf := c16Proxy("$", true)
+	sf.checkNATType(webrtc.Configuration{}, "http://127.0.0.1:1/probe")
+	tokens = newTokens(1)
+	tokens.get()
+	t0 := time.Now()
+	done := make(chan struct{})
+	go func() { defer close(done); sf.runSession(genSessionID()) }()
+	select {
+	case <-done:
+		fmt.Printf("C16SILENT result returned after %v, slots in use %d\n", time.Since(t0).Round(time.Second), tokens.count())
+	case <-time.After(50 * time.Second):
+		fmt.Printf("C16SILENT result still-polling after 50 s, slots in use %d\n", tokens.count())
+	}
+}
+
+func (e *c16Env) silentBroker() {
+	r := e.r
+	cmd := exec.Command(os.Args[0], "-test.run", "^TestC16ChildSilentBroker$", "-test.count=1", "-test.timeout=120s")
+	cmd.Env = append(os.Environ(), "VERIF_C16_SILENT=1", "VERIF_OUT=")
+	outb, _ := cmd.CombinedOutput()
+	res := "process-died"
+	for _, l := range strings.Split(string(outb), "\n") {
+		if strings.HasPrefix(l, "C16SILENT result ") {
+			res = strings.TrimPrefix(l, "C16SILENT result ")
+		}
+		if strings.HasPrefix(l, "C16SILENT skipped") {
+			r.Note("silent broker child: %s", l)
+			return
+		}
+	}
+	line := "child process: broker channel, one NAT type measurement (probe unreachable), then a session whose poll the broker accepts and never answers: " + res
+	r.Case("exit/silent-broker-after-nat-measurement", line, true)
+	switch {
+	case res == "process-died":
+		r.OracleFail("proxy-process-dies", line, string(outb[len(outb)-imin16(len(outb), 1500):]), "the proxy must survive a silent broker")
+	case strings.HasPrefix(res, "still-polling") || !strings.HasSuffix(res, "slots in use 0"):
+		r.OracleFail("slot-leaked/silent-broker", line, res, "a poll that the broker never answers ends at the broker transport's response-header timeout (30 s) and the session gives its slot back")
+	}
+}
+
 // c16RealStart (thorough tier and widened searches only: it needs seven 5 s poll intervals)
 func (e *c16Env) realStart(seconds int) {
 	r := e.r
@@ -1507,6 +1621,7 @@ func TestVerifC06Proxy(t *testing.T) {
 	e := c16Setup(r)
 	defer e.broker.srv.Close()
 	defer e.relay.srv.Close()
+	defer close(e.relay.stop)
 	e.pionOK = c16PionSelfTest(e)
 	if !e.pionOK {
 		r.Skip("pion 2-peer self-test failed: accepted relay URLs are not observable at /answer (junk offers); rejections are still judged")
@@ -1523,6 +1638,8 @@ func TestVerifC16(t *testing.T) {
 
 	// A (its own tokens_t objects: runs beside the rest)
 	var wg sync.WaitGroup
+	wg.Add(1)
+	go func() { defer wg.Done(); e.silentBroker() }() // a process of its own, about 31 s
 	tokCases := c16GenTokens(r)
 	wg.Add(1)
 	go func() { defer wg.Done(); c16Tokens(r, tokCases) }()
@@ -1566,6 +1683,9 @@ func TestVerifC16(t *testing.T) {
 	}
 	if e.pionOK && !broken() {
 		e.stalledDownloader()
+	}
+	if e.pionOK && !broken() {
+		e.stalledRelay()
 	}
 	for k := 0; k < r.N(2, 6) && e.pionOK && !broken(); k++ {
 		e.streamingWhileClientLeaves(k)
